@@ -12,6 +12,7 @@ package daemon
 
 import (
 	"context"
+	"encoding/json"
 	"fmt"
 	"io"
 	"os"
@@ -230,3 +231,119 @@ func c05sCopy(from, to string) error {
 }
 
 func TestVerifC05Sticky(t *testing.T) { vt.Run(t, c05sGen, c05sRun) }
+
+// ------------------------------------------------------------------ the real resource database
+
+// TestVerifC05InitDB: "an acknowledged ADD is durable: the on-disk record reflects it".
+// The other C05 tests open the database file with a copy of the (de)serializer that
+// NetworkServiceBuilder.InitResourceDB installs (that function opens a constant path);
+// this one goes through InitResourceDB itself: generated records are written through the
+// store it builds, the store is closed and built again (a restart), and every record must
+// read back exactly as it was written. The driver mounts a private tmpfs over the
+// database directory of every shard.
+type c05dRec struct {
+	Pod   int    `json:"pod"`
+	Addr  int    `json:"addr"`
+	Cid   int    `json:"cid"`
+	NoRes bool   `json:"no_res,omitempty"`
+	Del   bool   `json:"del,omitempty"` // the record is deleted again before the restart
+}
+
+type c05dScenario struct {
+	Recs     []c05dRec `json:"recs"`
+	Restarts int       `json:"restarts"`
+}
+
+func c05dGen(t *rapid.T) c05dScenario {
+	s := c05dScenario{Restarts: rapid.IntRange(1, 2).Draw(t, "restarts")}
+	n := rapid.IntRange(1, 6).Draw(t, "n")
+	for i := 0; i < n; i++ {
+		s.Recs = append(s.Recs, c05dRec{
+			Pod:   rapid.IntRange(0, 7).Draw(t, "pod"),
+			Addr:  rapid.IntRange(1, 200).Draw(t, "addr"),
+			Cid:   rapid.IntRange(0, 3).Draw(t, "cid"),
+			NoRes: rapid.IntRange(0, 5).Draw(t, "nores") == 0,
+			Del:   rapid.IntRange(0, 5).Draw(t, "del") == 0,
+		})
+	}
+	return s
+}
+
+func c05dRun(c *vt.Ctx, s c05dScenario) {
+	if _, err := os.Stat("/var/lib/cni/terway"); err != nil {
+		c.Inconclusive("no private database directory: " + err.Error())
+	}
+	_ = os.Remove(resDBPath)
+	open := func() *NetworkServiceBuilder {
+		b := &NetworkServiceBuilder{service: &networkService{}}
+		b.InitResourceDB()
+		if b.err != nil {
+			c.Fatalf("InitResourceDB: %v", b.err)
+		}
+		return b
+	}
+	b := open()
+	want := map[string]string{}
+	for _, r := range s.Recs {
+		name := fmt.Sprintf("p%d", r.Pod)
+		key := vsKey("ns", name)
+		cid := fmt.Sprintf("cid-%d-%d", r.Pod, r.Cid)
+		netns := "/proc/1/ns/net"
+		rec := daemon.PodResources{
+			PodInfo:     &daemon.PodInfo{Name: name, Namespace: "ns", PodUID: "uid-" + name, PodNetworkType: daemon.PodNetworkTypeENIMultiIP},
+			ContainerID: &cid, NetNs: &netns, NetConf: fmt.Sprintf("[%d]", r.Addr),
+		}
+		if !r.NoRes {
+			rec.Resources = []daemon.ResourceItem{{Type: daemon.ResourceTypeENIIP, ID: fmt.Sprintf("mac.10.0.0.%d", r.Addr), ENIID: "eni-1", ENIMAC: "mac", IPv4: fmt.Sprintf("10.0.0.%d", r.Addr)}}
+		}
+		if r.Del {
+			_ = b.service.resourceDB.Delete(key)
+			delete(want, key)
+			continue
+		}
+		if err := b.service.resourceDB.Put(key, rec); err != nil {
+			c.Fatalf("put %s: %v", key, err)
+		}
+		j, _ := json.Marshal(rec)
+		want[key] = string(j)
+	}
+	if len(want) >= 2 {
+		c.Label("several-records")
+		c.NonTrivial()
+	}
+	for r := 0; r < s.Restarts; r++ {
+		_ = storage.VerifClose(b.service.resourceDB)
+		b = open()
+		l, err := b.service.resourceDB.List()
+		if err != nil {
+			c.Fatalf("restart %d: list: %v", r, err)
+		}
+		got := map[string]string{}
+		for _, o := range getPodResources(l) {
+			if o.PodInfo == nil {
+				c.Fatalf("restart %d: a record without pod info came back", r)
+			}
+			j, _ := json.Marshal(o)
+			got[vsKey(o.PodInfo.Namespace, o.PodInfo.Name)] += string(j)
+		}
+		for k, w := range want {
+			if got[k] != w {
+				c.Fatalf("restart %d: the record of %s reads back as\n  %s\nbut was written (and acknowledged) as\n  %s", r, k, got[k], w)
+			}
+			o, err := b.service.resourceDB.Get(k)
+			if err != nil {
+				c.Fatalf("restart %d: Get(%s): %v", r, k, err)
+			}
+			if j, _ := json.Marshal(o); string(j) != w {
+				c.Fatalf("restart %d: Get(%s) returns\n  %s\nbut the record was written as\n  %s", r, k, j, w)
+			}
+		}
+		if len(got) != len(want) {
+			c.Fatalf("restart %d: %d records come back, %d were stored", r, len(got), len(want))
+		}
+	}
+	_ = storage.VerifClose(b.service.resourceDB)
+	_ = os.Remove(resDBPath)
+}
+
+func TestVerifC05InitDB(t *testing.T) { vt.Run(t, c05dGen, c05dRun) }
